@@ -20,7 +20,7 @@ BOUNDS = {
     "quick": "abc|abt explicit, abc generated/root, diamonds explicit, d3/abc explicit, conn2/abc generated",
     "thorough": "quick + abct, abcdt, abtn, abu w3, d3/abt generated, diamonds generated, conn2/abcd generated, conn2s/abc",
 }
-QUICK = ["abc/explicit", "abt/explicit", "abc/generated", "abc/root", "diamond/explicit", "d3/abc/explicit", "conn2/abc/generated", "mix3/abtn/explicit", "mix3/abtu/generated", "conn3/abc/generated", "empty/ab"]
+QUICK = ["abc/explicit", "abt/explicit", "abc/generated", "abc/root", "diamond/explicit", "d3/abc/explicit", "conn2/abc/generated", "mix3/abtn/explicit", "mix3/abtu/generated", "conn3/abc/generated", "empty/ab", "wide/1"]
 THOROUGH = QUICK + ["abct/explicit", "abcdt/explicit", "abtn/explicit", "abu/explicit/w3", "d3/abt/generated", "diamond/generated",
                     "conn2/abcd/generated", "conn2s/abc/generated", "abt/generated", "abcu/explicit"]
 
@@ -52,7 +52,7 @@ def check_model(m, acc, fam, k, only_edge=None):
     acc.n("models")
     acc.state(structure(obj))
     leaves = leaves_of(m)
-    alphas = list(ref.assignments(leaves))
+    alphas = list(ref.assignments_dom(leaves, 4))
     if m[0] == 'N':
         expect = [ref.truth(m, a) for a in alphas]
     else:
